@@ -42,7 +42,8 @@ PROBES = [
     "distribute_on_engine_labels", "stale_stub_at_compute", "stale_layer_at_compute",
     "stale_pos_at_compute", "getLayers_checked", "abort_as_SimAbort", "abort_as_MemoryError",
     "abort_as_KeyboardInterrupt", "recompute_after_other_engine_used_same_objects",
-    "fits_budget_exactly", "mixed_fresh_and_used_labels",
+    "fits_budget_exactly", "mixed_fresh_and_used_labels", "nodes_called_with_same_list_object",
+    "layers_ge_4", "all_labels_at_one_position",
 ]
 
 RULE = {
@@ -115,14 +116,16 @@ def gen_labels(rng, big):
         n = rng.randrange(5, 14)
     else:
         n = rng.randrange(14, 31)
-    layout = rng.choice(["dense", "ties", "half", "spread", "mixed"])
+    layout = rng.choice(["dense", "ties", "half", "spread", "mixed", "dense", "ties", "one"])
     wpal = rng.choice([[10, 20, 50], [50], [5.5, 12.5, 40], [3, 7.25, 33.3], [1, 2, 3], [60, 120, 300]])
     base = rng.choice([0, 0, 100, -50, 250.5])
     span = rng.choice([20, 100, 400, 1000])
     pos2w = {}
     labels = []
     for _ in range(n):
-        if layout == "dense":
+        if layout == "one":
+            p = base + 7
+        elif layout == "dense":
             p = base + rng.randrange(0, max(2, span // 8))
         elif layout == "ties":
             p = base + rng.choice([0, 1, 5, 5, 5, 40, 40, span])
@@ -244,7 +247,7 @@ def gen_plan(rng, tier):
             ops.append(["compute", e])
         elif r < 0.5:
             s = rng.randrange(nsets)
-            mode = rng.choice(["fresh", "same", "permute", "permute", "handover", "mixed"])
+            mode = rng.choice(["fresh", "same", "permute", "permute", "handover", "mixed", "reversed", "same_list"])
             ops.append(["set_labels", e, s, mode, rng.randrange(1 << 30)])
             engine_set[e] = s
         elif r < 0.6:
@@ -254,6 +257,12 @@ def gen_plan(rng, tier):
             keys = list(full.keys())
             rng.shuffle(keys)
             delta = {k: full[k] for k in keys[: rng.randrange(1, 3)]} if keys else {"density": 0.6}
+            cr = rng.random()
+            if cr < 0.08:
+                delta = {}                                   # set_options({})
+            elif cr < 0.16:
+                ks = [k for k in ("density", "nodeSpacing", "stubWidth", "algorithm", "maxPos") if k in eng_opts[e]]
+                delta = {k: eng_opts[e][k] for k in ks[: rng.randrange(1, 3)]}   # the values it already has
             merged = dict(eng_opts[e])
             merged.update(delta)
             if not _bounds_ok(merged):
@@ -440,6 +449,10 @@ def check_c04(layers, labels, dist_opts, engine_mode, stats):
     alg = dist_opts.get("algorithm")
     if K >= 2:
         stats["probe:layers_ge_3"] = stats.get("probe:layers_ge_3", 0) + 1
+    if K >= 3:
+        stats["probe:layers_ge_4"] = stats.get("probe:layers_ge_4", 0) + 1
+    if n > 1 and len({x.idealPos for x in labels}) == 1:
+        stats["probe:all_labels_at_one_position"] = stats.get("probe:all_labels_at_one_position", 0) + 1
     if not lw:
         stats["probe:no_upper_bound"] = stats.get("probe:no_upper_bound", 0) + 1
         if K != 0:
@@ -652,11 +665,20 @@ def _run(plan):
                     objs[s] = [old if r.random() < 0.5 else new for old, new in zip(objs[s], fresh)]
                     bump("probe:mixed_fresh_and_used_labels")
                 lst = list(objs[s])
+                if mode_eff == "reversed":
+                    lst.sort(key=lambda n: (n.idealPos, n.width), reverse=True)
+                    eng["permuted"] = True
+                elif mode_eff == "same_list" and eng.get("last_list") is not None \
+                        and eng.get("last_list_set") == s:
+                    lst = eng["last_list"]  # the very same list object handed over again
+                    bump("probe:nodes_called_with_same_list_object")
                 if mode_eff in ("permute", "mixed") and (mode_eff == "permute" or seed % 2):
                     random.Random(seed).shuffle(lst)
                     eng["permuted"] = True
-                else:
+                elif mode_eff != "reversed":
                     eng["permuted"] = False
+                eng["last_list"] = lst
+                eng["last_list_set"] = s
                 if mode_eff != "fresh" and laid_by.get(s) is not None and laid_by[s] != e:
                     bump("fault:handover:configured")
                     if any(n.parent is not None or n.layerIndex != 0 for n in lst):
@@ -667,7 +689,7 @@ def _run(plan):
                 eng["force"].nodes(lst)
                 eng["set"] = s
                 eng["sets_seen"].add(s)
-                eng["labels"] = list(objs[s])
+                eng["labels"] = list(lst)
                 outcome = mode_eff
         elif kind in ("compute", "abort_compute", "stack_compute"):
             e = op[1]
